@@ -157,3 +157,21 @@ def run_impl(circuit, p: list, limit: int = 20) -> tuple[str | None, list]:
     except Exception as e:  # noqa: BLE001
         err = errkind(e)
     return err, canon_post(circuit.ir.statements)
+
+
+def history_noise(circuit, rng) -> None:
+    """Leave some history behind in the process: relabel the qubits of a circuit that has just been processed (and is
+    about to be discarded) by a non-trivial permutation of its used qubits. On a library without hidden shared state this
+    is invisible to every later case; if objects or caches are shared between circuits, later cases are corrupted."""
+    from opensquirrel.mapper import HardcodedMapper
+    from opensquirrel.mapper.mapping import Mapping
+
+    n = circuit.qubit_register_size
+    if n < 2 or n > 64:
+        return
+    perm = list(range(n))
+    perm = perm[1:] + perm[:1]
+    try:
+        circuit.map(HardcodedMapper(n, Mapping(perm)))
+    except Exception:  # noqa: BLE001
+        pass
